@@ -5,6 +5,10 @@ ROOT = os.path.dirname(os.path.dirname(os.path.abspath(__file__)))
 
 CLAIMED = {
  # id: (category, text, note, technique, design_ref)
+ "C12": ("exploration",
+         "A simulated foreign peer: every image a real Writer node emits - after PRNG-drawn histories of crafted and hashed updates, unions/merges with sketches of other sizes, trims/inversions, through every mode/flavor/form of every family, plus spot runs at CPC lg_k 19-21 - is decoded by an independent decoder written from the cross-language format description, which rejects what a Java/C++ reader would reject or misread and otherwise yields an abstract state that must equal the reference model of the stream (registers/coupons/aux/kxq/flags, CPC matrix decompressed with decode tables derived from the encode tables, theta entries/theta/minimal widths, Bloom words, Count-Min table, Frequent Items pairs, t-digest centroids).",
+         "Trusted base: the format transcription in DESIGN.md Appendix A and the CPC entropy-table data (encode side). No fault kind bears on this property: the simulator contributes the stub peer and the population of states.",
+         "deterministic simulation: foreign-reader stub (independent spec decoder) on every emitted image vs reference model", "DESIGN.md §4 C12"),
  "C10": ("exploration",
          "Seeded simulation of a t-digest cluster (1-16 nodes, k 10..=500): value streams of ten shapes incl. NaN/inf to be ignored, a PRNG-drawn merge DAG (borrowed digests, images over an exactly-once network with reorder/loss, freeze->unfreeze), framed checkpoints with crash/restart and WAL replay, and foreign digests with heavy first/last/single centroids in the native f64/f32 and reference-implementation encodings; after every merge, restart and foreign contribution every reached digest state is checked: total_weight, exact min/max, rank and quantile monotone and in range on dense grids, exact at the extremes, rank(quantile(q)) within the digest's own resolution, cdf/pmf consistent with rank for split lists of length 0,1,2,17, frozen digest identical.",
          "Trusted: exact multiset model, independent t-digest codec (DESIGN.md Appendix A). The deciding oracle is per state; the simulator contributes merge orders, restarts and foreign images. One narrowly identified sub-class is a recorded finding (known_findings.txt).",
